@@ -68,6 +68,7 @@ fixed('F24', 'C11', ['C11.not_same_exception', 'C11.C01_missing', 'C11.accessor_
 fixed('F2', 'C03', ['C03.hang', 'C03.descendant_incomplete'], '95060a3', 'recursion guard raised out of process_event: the event never completed and awaiting it hung', 'findings/F2.json')
 fixed('F2b', 'C04', ['C04.raised', 'C04.hang'], '95060a3', 'recursion guard error escaped from an in-handler await', 'findings/F2_C04.json')
 fixed('F2c', 'C15', ['C15.hang'], '95060a3', 'event refused by the recursion guard stayed pending in history: wait_until_idle never returned', 'findings/F2_C15.json')
+fixed('F25', 'C15', ['C15.hang'], 'dda422b', 'the queue getter of a cancelled run loop stayed registered and swallowed the first event dispatched after the run loop had been restarted: the event was never processed and wait_until_idle never returned')
 fixed('F17', 'C15', ['C15.not_idle_at_return'], '67ce4a2', 'wait_until_idle returned with a forwarded event still queued')
 fixed('F18', 'C09', ['C09.children_attribution'], 'f319433', 'child dispatched to two buses by one handler was listed twice in event_children')
 with open('/verif/KNOWN_FINDINGS.jsonl', 'w') as f:
